@@ -41,6 +41,10 @@ CLAIMED = {
    text="Proof of the counting clause: Threefold returns min(3, 1 + number of earlier history entries at distances 4, 6, 8, ... equal to the current hash) for histories of any length (loop invariant against an inductively specified count); ResetHash leaves a one-entry history; MakeMove/MakeNullMove push exactly one entry and keep earlier entries (history clauses).",
    note="Equality of hashes stands for equality of positions modulo Zobrist collisions (probabilistic, cannot be proved). That positions cannot recur at distance 2 and that entries at odd distances have the other side to move are not mechanised in this revision. axioms occUnfold/occRange are the inductive definition of the count (trusted).",
    ref="DESIGN.md section 5 C10"),
+ "C11": dict(
+   text="Proof of the robustness clause: every FEN field parser (position, stm, cRights, enPassant, fifty, fullMoves, counter) and the sequencing function seq are panic-free (index, shift, map and conversion safety) for an arbitrary byte slice of arbitrary length and any cursor position allowed by their preconditions, and keep the cursor non-negative and the cached length equal to the slice length (loop invariants; seq calls the parsers through function values under a callback contract that the parsers' own contracts discharge). Proof of the gate clause: InvalidPieceCount returns false for every material distribution reachable by promotion (population counts abstracted to values in [0,64]).",
+   note="Not decided (stated in DESIGN.md): the print/parse round-trip clauses need sequence reasoning over strings.Builder/strconv/fmt output, which is outside the subset; uci.handlePosition (that a rejected position never replaces the current one) is string-handling code not under contract in this revision. That ParseFEN passes position first to seq is by inspection of its single call.",
+   ref="DESIGN.md section 5 C11"),
  "C12": dict(
    text="Proof for all 64 squares and all 2^64 occupancies: calcRook/BishopAttacks equal the coordinate ray walk (loops unrolled 7 with unwinding assertions); the magic tables are proved filled by the package initialiser (loop invariants over the carry-rippler subset enumeration, pointwise in an arbitrary (square, occupancy)), using per-square no-destructive-collision and mask-irrelevance lemmas over the constant tables of the working tree, hence RookMoves/BishopMoves == ray walk for every occupancy; king/knight tables and pawn shift formulas equal the set-wise geometric definitions, which are linked to the coordinate definitions by lemmas; initInBetween is proved to fill InBetween[a][b] (ends disregarded) with exactly the squares strictly between aligned squares and nothing otherwise (4 nested loop invariants, inner walk unrolled). A mechanical SSA scan shows the tables have no other writers.",
    note="Trusted: coordinate definitions in spec/geom.smt2 (walkDir, kingAtt, knightAtt, pawnAtt, between); Go runs init before use. Termination of the init loops is not proved.",
